@@ -442,6 +442,8 @@ type Tx struct {
 	Writes  map[uint32][]byte // pgno -> new content (page 1 is rewritten by the simulator to carry the new size)
 	NewSize uint32
 	Wal     bool // header versions of page 1 after the tx (switches the database to WAL mode)
+	// JournalSplit: the journal is synced after this many records and continues in a second segment (0: one segment)
+	JournalSplit int
 	// Spill: pages beyond both the old and the final size that the transaction allocated, that the
 	// page cache spilled to the file, and that were freed again before the commit
 	Spill map[uint32][]byte
@@ -520,6 +522,10 @@ type Pager struct {
 	// journal back and finalise again, as SQLite does; CommitErr2 is that second result.
 	RollbackOnCommitError bool
 	CommitErr2            error
+	// LastRecs / LastGrew: the journal records and whether the file grew in the last RunRollbackTx (for a caller
+	// that lets LiteFS roll the journal back)
+	LastRecs []uint32
+	LastGrew bool
 	// BeforeCommit runs immediately before the commit step (journal finalisation / release of the
 	// WAL write lock after a commit frame).
 	BeforeCommit func()
@@ -552,6 +558,7 @@ const (
 	RollbackBeforeWrite                 // journal created, records written, then rolled back before any db write
 	RollbackAfterWrite                  // db pages written (cache spill), then rolled back by replaying the journal
 	LockOnly                            // RESERVED taken and released without writing
+	DieAfterWrite                       // the client dies after its page writes: the journal stays hot, its locks are gone
 )
 
 // busy-timeout like SQLite's: other lock holders (snapshots being streamed, internal writers) come and go
@@ -636,45 +643,56 @@ func (p *Pager) RunRollbackTx(prev *Image, tx Tx, jm JournalMode, outcome Rollba
 			recs = append(recs, pg)
 		}
 	}
-	hdr := make([]byte, sectorSize)
-	copy(hdr, "\xd9\xd5\x05\xf9\x20\xa1\x63\xd7")
-	binary.BigEndian.PutUint32(hdr[8:], 0) // nRec, rewritten at sync
-	binary.BigEndian.PutUint32(hdr[12:], p.Nonce)
-	binary.BigEndian.PutUint32(hdr[16:], uint32(len(prev.Pages)))
-	binary.BigEndian.PutUint32(hdr[20:], uint32(sectorSize))
-	binary.BigEndian.PutUint32(hdr[24:], uint32(ps))
-	if err := db.WriteJournalAt(ctx, jf, hdr, 0, o); err != nil {
-		unlockAll()
-		return fmt.Errorf("journal header: %w", err)
+	// one segment, or two when the journal is synced in the middle of the transaction (tx.JournalSplit records in
+	// the first): every segment starts with its own header at the next sector boundary
+	segs := [][]uint32{recs}
+	if tx.JournalSplit > 0 && tx.JournalSplit < len(recs) {
+		segs = [][]uint32{recs[:tx.JournalSplit], recs[tx.JournalSplit:]}
 	}
-	off := int64(sectorSize)
-	for _, pg := range recs {
-		var b4 [4]byte
-		binary.BigEndian.PutUint32(b4[:], pg)
-		if err := db.WriteJournalAt(ctx, jf, b4[:], off, o); err != nil {
+	off := int64(0)
+	for _, seg := range segs {
+		hdrOff := off
+		hdr := make([]byte, sectorSize)
+		copy(hdr, "\xd9\xd5\x05\xf9\x20\xa1\x63\xd7")
+		binary.BigEndian.PutUint32(hdr[8:], 0) // nRec, rewritten at sync
+		binary.BigEndian.PutUint32(hdr[12:], p.Nonce)
+		binary.BigEndian.PutUint32(hdr[16:], uint32(len(prev.Pages)))
+		binary.BigEndian.PutUint32(hdr[20:], uint32(sectorSize))
+		binary.BigEndian.PutUint32(hdr[24:], uint32(ps))
+		if err := db.WriteJournalAt(ctx, jf, hdr, hdrOff, o); err != nil {
+			unlockAll()
+			return fmt.Errorf("journal header: %w", err)
+		}
+		off = hdrOff + int64(sectorSize)
+		for _, pg := range seg {
+			var b4 [4]byte
+			binary.BigEndian.PutUint32(b4[:], pg)
+			if err := db.WriteJournalAt(ctx, jf, b4[:], off, o); err != nil {
+				unlockAll()
+				return err
+			}
+			pre := prev.Pages[pg-1]
+			if err := db.WriteJournalAt(ctx, jf, pre, off+4, o); err != nil {
+				unlockAll()
+				return err
+			}
+			binary.BigEndian.PutUint32(b4[:], journalChecksum(pre, p.Nonce))
+			if err := db.WriteJournalAt(ctx, jf, b4[:], off+4+int64(ps), o); err != nil {
+				unlockAll()
+				return err
+			}
+			off += int64(8 + ps)
+		}
+		// sync: rewrite nRec
+		binary.BigEndian.PutUint32(hdr[8:], uint32(len(seg)))
+		if err := db.WriteJournalAt(ctx, jf, hdr[:12], hdrOff, o); err != nil {
 			unlockAll()
 			return err
 		}
-		pre := prev.Pages[pg-1]
-		if err := db.WriteJournalAt(ctx, jf, pre, off+4, o); err != nil {
-			unlockAll()
-			return err
-		}
-		binary.BigEndian.PutUint32(b4[:], journalChecksum(pre, p.Nonce))
-		if err := db.WriteJournalAt(ctx, jf, b4[:], off+4+int64(ps), o); err != nil {
-			unlockAll()
-			return err
-		}
-		off += int64(8 + ps)
+		_ = db.SyncJournal(ctx)
+		off = (off + int64(sectorSize) - 1) / int64(sectorSize) * int64(sectorSize)
 	}
-	// sync: rewrite nRec
-	binary.BigEndian.PutUint32(hdr[8:], uint32(len(recs)))
-	if err := db.WriteJournalAt(ctx, jf, hdr[:12], 0, o); err != nil {
-		unlockAll()
-		return err
-	}
-	_ = db.SyncJournal(ctx)
-	p.logf("journal recs=%v sector=%d", recs, sectorSize)
+	p.logf("journal recs=%v segments=%d sector=%d", recs, len(segs), sectorSize)
 
 	finalize := func() error {
 		switch jm {
@@ -752,6 +770,13 @@ func (p *Pager) RunRollbackTx(prev *Image, tx Tx, jm JournalMode, outcome Rollba
 		p.Rec.Write(pg, writes[pg])
 	}
 	_ = db.SyncDatabase(ctx)
+	p.LastRecs = recs
+	p.LastGrew = (tx.NewSize > uint32(len(prev.Pages)) || maxWritten > uint32(len(prev.Pages))) && len(prev.Pages) > 0
+	if outcome == DieAfterWrite {
+		p.logf("client dies after its page writes")
+		unlockAll()
+		return nil
+	}
 	if outcome == RollbackAfterWrite {
 		// play the journal back: restore pre-images, restore size, then finalise
 		for _, pg := range recs {
@@ -997,6 +1022,9 @@ type WALMark struct {
 	frames int
 	c1, c2 uint32
 }
+
+// DropPending forgets the frames written since the last commit (the transaction rolls back).
+func (p *Pager) DropPending() { p.pending, p.pendingCommit = nil, 0 }
 
 func (p *Pager) Mark() WALMark           { return WALMark{p.walFrames, p.walCk1, p.walCk2} }
 func (p *Pager) ResetTo(m WALMark)       { p.walFrames, p.walCk1, p.walCk2 = m.frames, m.c1, m.c2 }
